@@ -32,6 +32,8 @@ pub struct Ctx {
     /// This worker's index and the number of workers of this profile.
     pub worker: u32,
     pub workers: u32,
+    /// evaluate every case in a forked child (re-run after a worker was killed)
+    pub isolate: bool,
 }
 
 impl Ctx {
@@ -220,6 +222,9 @@ impl<C: Debug + Clone + Serialize + DeserializeOwned + 'static> Sub for PropSub<
     }
     fn run(&self, ctx: &Ctx) -> SubReport {
         let mut rep = SubReport::new(self.name, self.rule);
+        if ctx.isolate {
+            return self.run_isolated(ctx);
+        }
         // 1. enumerated space
         if let Some(en) = self.enumerate {
             let mut idx = 0u64;
@@ -319,6 +324,14 @@ impl<C: Debug + Clone + Serialize + DeserializeOwned + 'static> Sub for PropSub<
         rep
     }
     fn replay(&self, case: &Value) -> Result<(), String> {
+        if case.get("__crashed").is_some() {
+            // found by an isolated re-run: evaluate in a child again
+            let c: C = serde_json::from_value(case["case"].clone()).map_err(|e| format!("replay file does not decode: {e}"))?;
+            return match isolated_eval(self.eval, &c) {
+                Ok(()) => Ok(()),
+                Err(m) => Err(m),
+            };
+        }
         if let Some(h) = case.get("__history").and_then(|h| h.as_array()) {
             // cases that led up to an order-dependent failure: run them in order
             for c in h {
@@ -333,6 +346,80 @@ impl<C: Debug + Clone + Serialize + DeserializeOwned + 'static> Sub for PropSub<
             return Err(format!("INCONCLUSIVE: {w}"));
         }
         r
+    }
+}
+
+/// One case in a forked child: Ok / the oracle's message / "crashed".
+fn isolated_eval<C>(eval: fn(&C, &mut Obs) -> Result<(), String>, case: &C) -> Result<(), String> {
+    let r = mb2_sandbox::run_child(|| {
+        let mut obs = Obs::new();
+        match mb2_model::panics::guard_case(|| eval(case, &mut obs)) {
+            Ok(Ok(())) => b"OK".to_vec(),
+            Ok(Err(m)) | Err(m) => format!("E {m}").into_bytes(),
+        }
+    });
+    match r {
+        mb2_sandbox::ChildResult::Done(b) if b == b"OK" => Ok(()),
+        mb2_sandbox::ChildResult::Done(b) => Err(String::from_utf8_lossy(&b[2.min(b.len())..]).into_owned()),
+        mb2_sandbox::ChildResult::Signal(sig) => Err(format!("evaluating this case kills the process ({}): the library faulted in a call that is made in-process because the property lets it at most panic", mb2_sandbox::ChildResult::signal_name(sig))),
+        mb2_sandbox::ChildResult::Timeout => Err("INCONCLUSIVE: watchdog expired".into()),
+        mb2_sandbox::ChildResult::Broken(c) => Err(format!("INCONCLUSIVE: child exited with {c}")),
+    }
+}
+
+impl<C: Debug + Clone + Serialize + DeserializeOwned + 'static> PropSub<C> {
+    /// The same cases as `run` (same enumeration, same generator and seed),
+    /// each evaluated in its own forked child; stops at the first case whose
+    /// child is killed or whose oracle fails. No shrinking, no evidence counters.
+    fn run_isolated(&self, ctx: &Ctx) -> SubReport {
+        let mut rep = SubReport::new(self.name, self.rule);
+        let mut check = |rep: &mut SubReport, case: &C| -> bool {
+            rep.evaluations += 1;
+            match isolated_eval(self.eval, case) {
+                Ok(()) => true,
+                Err(m) if m.starts_with("INCONCLUSIVE") => {
+                    rep.inconclusive.push(m);
+                    true
+                }
+                Err(m) => {
+                    rep.violations.push(Violation { sub: self.name.into(), profile: profile_name().into(), message: m, case: json!({"__crashed": true, "case": serde_json::to_value(case).unwrap()}) });
+                    false
+                }
+            }
+        };
+        if let Some(en) = self.enumerate {
+            let mut idx = 0u64;
+            for case in en(ctx) {
+                let mine = ctx.mine(idx);
+                idx += 1;
+                if mine && !check(&mut rep, &case) {
+                    return rep;
+                }
+            }
+        }
+        let cases = ctx.cases(self.quick, self.thorough);
+        if cases == 0 {
+            return rep;
+        }
+        let mut config = Config::default();
+        config.cases = cases;
+        config.failure_persistence = None;
+        config.max_shrink_iters = 0;
+        config.max_global_rejects = 1 << 20;
+        config.max_local_rejects = 1 << 20;
+        let rng = TestRng::from_seed(RngAlgorithm::ChaCha, &ctx.sub_seed(self.name));
+        let mut runner = TestRunner::new_with_rng(config, rng);
+        let strat = (self.strategy)(ctx);
+        let cell = RefCell::new(rep);
+        let _ = runner.run(&strat, |case| {
+            let mut g = cell.borrow_mut();
+            if !g.violations.is_empty() {
+                return Ok(());
+            }
+            check(&mut g, &case);
+            Ok(())
+        });
+        cell.into_inner()
     }
 }
 
